@@ -178,6 +178,40 @@ claim('C12',
       'guard-dominance rules + backward dataflow slice for dtype provenance + symbolic formula comparison',
       'DESIGN.md §4 C12')
 
+claim('C16',
+      'Static analysis of the two-pass labelling kernel reached from zonal.regions; decides the premises of the '
+      'half-page correctness argument (notes/engine_sketches.md) rather than the theorem: R1 the neighbour tables are '
+      'exactly the von Neumann / Moore offsets, slot k of the value window and of the label window look at the same '
+      'neighbour, pass 2 uses the tables of pass 1, clamps use the extent of their own axis, both passes visit all '
+      'cells in raster order; R2 pass 1 copies the first positive label among matching neighbours, otherwise takes a '
+      'fresh id (ids from 1, counter advanced at both sites), NaN cells copied through and skipped; R3 pass 2 merges '
+      'every pair of distinct labels among matching neighbours by two full-raster replacement loops (either order, '
+      'running minimum, no early exit); Q1 the running label counter is only ever stored in arrays of a fixed wide '
+      'dtype (never the raster\'s own); Q2 value matching is exact == on the integer path selected by '
+      'np.issubdtype(dtype, np.integer), tolerance arithmetic only on the float path.',
+      'Trusted: the paper argument that R1-R3 + an equivalence matching relation give exactly the connected '
+      'components (cross-checked by hand). For float rasters the tolerance relation is not transitive; the property '
+      'restricts itself to integer-valued rasters. Identity of coords/attrs is decided under C10.',
+      'structural premise extraction (neighbour tables, merge loops) + dtype-provenance rules',
+      'DESIGN.md §4 C16')
+
+claim('C14',
+      'Partial, static: decides the structural premises of chain validity and of the end-point clauses, plus the '
+      'admissibility premise of optimality: A1 coordinates map to cells by round-to-nearest of |p - origin| / cellsize '
+      'with origin and cell size of the SAME axis (symbolic form check; truncation refuted); A2 step cost is the '
+      'Euclidean pixel distance and the heuristic is that distance, a fraction of it, or 0 (exact normal forms; '
+      'Manhattan or inflated heuristics refuted); A3 the neighbour tables are exactly the 8 / 4 unit offsets, returned, '
+      'unpacked and added as (row, col); A4 the path image is NaN-initialised and filled by the parent-pointer walk '
+      'from the cost-from-start array (never f = g + h), start = 0; A5 a neighbour is relaxed only after the in-raster '
+      'test (each index against its own extent, normalised comparison forms), the crossable test (NaN or barrier) and '
+      'the closed-set test, with g = g[current] + distance(current, neighbour) and parent = current; A6 argmin loops '
+      'with strict < start at +inf (one frozen, justified exception). NOT decided (declined): that the returned cost '
+      'is the minimum over all routes and that no route implies all-NaN - these need the A* open/closed invariants.',
+      'Trusted: admissible + consistent heuristic and correct relaxation imply optimality only together with the '
+      'bookkeeping invariants, which are not checked.',
+      'symbolic form checks (exact rationals) + guard-order / store-pattern rules on the search kernel',
+      'DESIGN.md §4 C14')
+
 ALL = ['C%02d' % i for i in range(1, 20)]
 
 
